@@ -15,6 +15,9 @@ Read from /repo's working tree on every run:
 Any other source shape is an ExtractionError.
 """
 import ast
+import contextlib
+import copy
+import types
 from .common import *
 
 REL_NS = "fim/user/network_service.py"
@@ -121,114 +124,302 @@ def shallow():
     return res, span_hash(src, cls)
 
 
-def _enum_attr(node, enum):
-    return (isinstance(node, ast.Attribute) and isinstance(node.value, ast.Name) and node.value.id == enum) and node.attr
+# --------------------------------------------------------------------------
+# behavioural probes: the facts below are *observed* on small scratch topologies built through the public API, not read
+# off the source text, so that a behaviour-preserving rewrite (hoisted lookups, extracted helpers, renamed locals,
+# re-associated boolean tests) yields the same Generated file and a semantic change yields a different one.
+
+class _Falsy:
+    """a value that is set (not None) but falsy"""
+    def __bool__(self):
+        return False
+
+    def __len__(self):
+        return 0
+
+    def __repr__(self):
+        return "<set-but-falsy>"
 
 
-def guardrails():
-    tree, src = parse(REL_NS)
-    cls = find_class(tree, "NetworkService")
-    fn = find_func(cls, "__service_guardrails")
-    pairs = []
-    for st in strip_doc(fn.body):
-        ok = (isinstance(st, ast.If) and not st.orelse and isinstance(st.test, ast.BoolOp) and isinstance(st.test.op, ast.And)
-              and len(st.test.values) == 2 and len(st.body) == 1 and isinstance(st.body[0], ast.Raise))
-        if not ok:
-            raise ExtractionError("__service_guardrails: statement is not `if A and B: raise`")
-        a, b = st.test.values
-        # sliver.get_type() == ServiceType.X
-        okA = (isinstance(a, ast.Compare) and len(a.ops) == 1 and isinstance(a.ops[0], ast.Eq) and isinstance(a.left, ast.Call)
-               and isinstance(a.left.func, ast.Attribute) and a.left.func.attr == "get_type"
-               and getattr(a.left.func.value, "id", "") == "sliver")
-        okB = (isinstance(b, ast.Compare) and len(b.ops) == 1 and isinstance(b.ops[0], ast.Eq) and isinstance(b.left, ast.Attribute)
-               and b.left.attr == "type" and getattr(b.left.value, "id", "") == "interface")
-        if not (okA and okB):
-            raise ExtractionError("__service_guardrails: condition is not `sliver.get_type() == ServiceType.X and interface.type == InterfaceType.Y`")
-        x = _enum_attr(a.comparators[0], "ServiceType")
-        y = _enum_attr(b.comparators[0], "InterfaceType")
-        exc = st.body[0].exc
-        if not (x and y and isinstance(exc, ast.Call) and getattr(exc.func, "id", "") == "TopologyException"):
-            raise ExtractionError("__service_guardrails: operands / exception class")
-        pairs.append((x, y))
-
-    def calls(fname):
-        f = find_func(cls, fname)
-        return any(isinstance(n, ast.Call) and isinstance(n.func, ast.Attribute) and n.func.attr == "__service_guardrails"
-                   for n in ast.walk(f))
-    # the class whose services get the interface-count check
-    v = find_func(cls, "__validate_nstype_constraints")
-    exp_cls = None
-    for n in ast.walk(v):
-        if isinstance(n, ast.If) and isinstance(n.test, ast.Call) and getattr(n.test.func, "id", "") == "isinstance" \
-                and len(n.test.args) == 2 and isinstance(n.test.args[1], ast.Attribute):
-            exp_cls = n.test.args[1].attr
-    if exp_cls is None:
-        raise ExtractionError("__validate_nstype_constraints: isinstance(self.topo, <class>) guard not found")
-    return pairs, calls("__init__"), calls("connect_interface"), exp_cls, span_hash(src, fn)
+@contextlib.contextmanager
+def _swap(obj, name, value, item=False):
+    """temporarily replace an attribute (or a dictionary entry)"""
+    if item:
+        old = obj[name]
+        obj[name] = value
+    else:
+        old = obj.__dict__.get(name, _swap) if isinstance(obj, type) else getattr(obj, name)
+        setattr(obj, name, value)
+    try:
+        yield
+    finally:
+        if item:
+            obj[name] = old
+        elif old is _swap:
+            delattr(obj, name)
+        else:
+            setattr(obj, name, old)
 
 
-def nodes_view_excludes():
-    tree, src = parse(REL_TOPO)
-    cls = find_class(tree, "Topology")
-    fn = find_func(cls, "_list_nodes")
-    ex = []
-    for n in ast.walk(fn):
-        if isinstance(n, ast.If) and isinstance(n.test, ast.Compare) and len(n.test.ops) == 1 \
-                and isinstance(n.test.ops[0], ast.NotEq) and isinstance(n.test.left, ast.Attribute) and n.test.left.attr == "type":
-            x = _enum_attr(n.test.comparators[0], "NodeType")
-            if not x:
-                raise ExtractionError("_list_nodes: filter is not on a NodeType member")
-            ex.append(x)
-        elif isinstance(n, ast.If):
-            raise ExtractionError("_list_nodes: unrecognised condition")
-    # validate() must iterate self.nodes / self.network_services
-    val = find_func(cls, "validate")
-    loops = [ast.unparse(n.iter) for n in ast.walk(val) if isinstance(n, ast.For)]
-    if "self.nodes.values()" not in loops or "self.network_services.values()" not in loops:
-        raise ExtractionError("Topology.validate: loops over self.nodes / self.network_services not found: %s" % loops)
-    return ex, span_hash(src, val)
+def _fim():
+    import fim.user.topology as ft
+    import fim.user.node as un
+    import fim.user.network_service as uns
+    from fim.slivers.network_node import NodeType, NodeSliver
+    from fim.slivers.network_service import ServiceType, NetworkServiceSliver
+    from fim.slivers.interface_info import InterfaceType
+    from fim.slivers.capacities_labels import Labels
+    from fim.user.component import ComponentModelType
+    from fim.user.model_element import TopologyException
+    return locals()
+
+
+def _drop(t):
+    try:
+        t.graph_model.delete_graph()
+    except Exception:
+        pass
+
+
+def _verdict(F, call):
+    try:
+        call()
+        return "pass"
+    except F["TopologyException"]:
+        return "raise"
+    except Exception as e:
+        raise ExtractionError("probe: validate_constraints fails with %s: %s" % (type(e).__name__, str(e)[:200]))
+
+
+def _node_row(F, nt, req=(), forb=()):
+    rec = copy.copy(F["NodeSliver"].NodeConstraints[nt])
+    rec.required_properties, rec.forbidden_properties = list(req), list(forb)
+    return _swap(F["NodeSliver"].NodeConstraints, nt, rec, item=True)
+
+
+def _svc_row(F, st, req=(), forb=()):
+    rec = copy.copy(F["NetworkServiceSliver"].ServiceConstraints[st])
+    rec.min_interfaces = rec.num_interfaces = rec.num_sites = rec.num_instances = F["NetworkServiceSliver"].NO_LIMIT
+    rec.required_properties, rec.forbidden_properties, rec.required_interface_types = list(req), list(forb), []
+    return _swap(F["NetworkServiceSliver"].ServiceConstraints, st, rec, item=True)
 
 
 def presence_tests():
-    """How each check site of validate_constraints decides that a property is set: 'truthy' (`if [not] x.get_property(p)`)
-    or 'notNone' (`... is [not] None`). Anything else is an ExtractionError."""
+    """How each check site of the two validate_constraints decides that a property is set: 'truthy' (an empty string and a
+    set-but-falsy object both count as not set) or 'notNone' (both count as set). Observed: the row of a scratch element is
+    replaced by one that requires / forbids a single string property and the sliver getter of that property is made to
+    return None, a value, '' and a set-but-falsy object in turn. Any other pattern of outcomes is an ExtractionError."""
+    F = _fim()
+    t = F["ft"].ExperimentTopology()
     out = {}
-    for rel, cls_name, key in ((REL_NS, "NetworkService", "svc"), ("fim/user/node.py", "Node", "node")):
-        tree, src = parse(rel)
-        fn = find_func(find_class(tree, cls_name), "validate_constraints")
-        loops = [n for n in ast.walk(fn) if isinstance(n, ast.For) and isinstance(n.iter, ast.Name) and n.iter.id in ("req_props", "forb_props")]
-        if sorted(l.iter.id for l in loops) != ["forb_props", "req_props"]:
-            raise ExtractionError("%s.validate_constraints: loops over req_props / forb_props not found" % cls_name)
-        for lp in loops:
-            if len(lp.body) != 1 or not isinstance(lp.body[0], ast.If) or lp.body[0].orelse:
-                raise ExtractionError("%s.validate_constraints: loop body is not a single `if`" % cls_name)
-            test = lp.body[0].test
-            modes = set()
-            parents = {}
-            for n in ast.walk(test):
-                for ch in ast.iter_child_nodes(n):
-                    parents[ch] = n
-            for n in ast.walk(test):
-                if isinstance(n, ast.Call) and isinstance(n.func, ast.Attribute) and n.func.attr == "get_property":
-                    par = parents.get(n)
-                    if isinstance(par, ast.Compare) and len(par.ops) == 1 and isinstance(par.ops[0], (ast.Is, ast.IsNot)) \
-                            and isinstance(par.comparators[0], ast.Constant) and par.comparators[0].value is None:
-                        modes.add("notNone")
-                    elif isinstance(par, (ast.UnaryOp, ast.BoolOp, ast.If)) or par is None:
-                        modes.add("truthy")
-                    else:
-                        raise ExtractionError("%s.validate_constraints: get_property used in an unrecognised test: %s" % (cls_name, ast.unparse(test)))
-            if len(modes) != 1:
-                raise ExtractionError("%s.validate_constraints: presence test not recognised: %s" % (cls_name, ast.unparse(test)))
-            out[key + ("_req" if lp.iter.id == "req_props" else "_forb")] = modes.pop()
+    try:
+        n = t.add_node(name="probe-node", site="PROBE", ntype=F["NodeType"].VM)
+        s = t.add_network_service(name="probe-svc", nstype=F["ServiceType"].L2Bridge)
+        sites = (("node", F["NodeSliver"], "image_ref", lambda: n.validate_constraints(),
+                  lambda **kw: _node_row(F, F["NodeType"].VM, **kw)),
+                 ("svc", F["NetworkServiceSliver"], "controller_url", lambda: s.validate_constraints([]),
+                  lambda **kw: _svc_row(F, F["ServiceType"].L2Bridge, **kw)))
+        for key, cls, p, call, row in sites:
+            if not hasattr(cls, "get_" + p):
+                raise ExtractionError("probe property %s has no getter on %s" % (p, cls.__name__))
+            for kind in ("req", "forb"):
+                got = {}
+                for label, val in (("none", None), ("value", "x"), ("blank", ""), ("falsy", _Falsy())):
+                    with row(**{kind: [p]}), _swap(cls, "get_" + p, lambda self, _v=val: _v):
+                        got[label] = _verdict(F, call)
+                seen = {k: (v == "pass") == (kind == "req") for k, v in got.items()}      # does the check see the property as set
+                if seen["none"] or not seen["value"]:
+                    raise ExtractionError("%s.validate_constraints: %s check does not tell an unset property from a set one: %s" % (key, kind, got))
+                if not seen["blank"] and not seen["falsy"]:
+                    out["%s_%s" % (key, kind)] = "truthy"
+                elif seen["blank"] and seen["falsy"]:
+                    out["%s_%s" % (key, kind)] = "notNone"
+                else:
+                    raise ExtractionError("%s.validate_constraints: %s presence test is neither truthiness nor `is not None`: %s" % (key, kind, got))
+    finally:
+        _drop(t)
     return out
+
+
+def _sample_value(cls, p):
+    """a value the setter of property p accepts (None: no way found)"""
+    import enum
+    import inspect
+    setter = getattr(cls, "set_" + p, None)
+    if setter is None:
+        return None
+    params = list(inspect.signature(setter).parameters.values())[1:]
+    if len(params) != 1:
+        return None
+    ann = params[0].annotation
+    if ann is str or ann is inspect.Parameter.empty:
+        samples = ["x", "10.0.0.1"]
+    elif inspect.isclass(ann) and issubclass(ann, enum.Enum):
+        samples = [list(ann)[0]]
+    elif inspect.isclass(ann):
+        try:
+            samples = [ann()]
+        except Exception:
+            samples = []
+    else:
+        samples = []
+    for smp in samples:
+        inst = cls()
+        try:
+            inst.set_property(p, smp)
+            if inst.get_property(p) is not None:
+                return smp
+        except Exception:
+            continue
+    return None
+
+
+def node_seen(t_rows):
+    """Which of the properties the node rows name `Node.validate_constraints` can see when they are set through the API
+    (observed on a scratch VM whose row forbids / requires that one property). -> (seen, unprobed)"""
+    F = _fim()
+    names = []
+    for _, r in t_rows:
+        for p in r["required_properties"] + r["forbidden_properties"]:
+            if p not in names:
+                names.append(p)
+    seen, unprobed = [], []
+    for p in names:
+        t = F["ft"].ExperimentTopology()
+        try:
+            n = t.add_node(name="probe-node", site="PROBE", ntype=F["NodeType"].VM)
+            if p != "site":
+                n.set_property("site", None)
+            bare = t.add_node(name="probe-bare", site="PROBE", ntype=F["NodeType"].VM)
+            bare.set_property("site", None)         # really unset (the constructor insists on a string)
+            if p == "site":
+                pass
+            elif p == "attached_components_info":
+                n.add_component(name="probe-gpu", model_type=F["ComponentModelType"].GPU_RTX6000)
+            else:
+                smp = _sample_value(F["NodeSliver"], p)
+                if smp is None:
+                    unprobed.append(p)
+                    continue
+                try:
+                    n.set_property(p, smp)
+                    if n.get_property(p) is None:
+                        # some properties are only stored together with others (image_ref with image_type)
+                        both = {q: _sample_value(F["NodeSliver"], q) for q in names if q not in ("site", "attached_components_info")}
+                        n.set_properties(**{q: v for q, v in both.items() if v is not None})
+                    if n.get_property(p) is None:
+                        raise ValueError(p)
+                except Exception:
+                    unprobed.append(p)
+                    continue
+            with _node_row(F, F["NodeType"].VM, forb=[p]):
+                f_set, f_unset = _verdict(F, n.validate_constraints), _verdict(F, bare.validate_constraints)
+            with _node_row(F, F["NodeType"].VM, req=[p]):
+                r_set, r_unset = _verdict(F, n.validate_constraints), _verdict(F, bare.validate_constraints)
+            if f_unset != "pass" or r_unset != "raise":
+                raise ExtractionError("Node.validate_constraints sees %s on a node that does not have it" % p)
+            if (f_set == "raise") != (r_set == "pass"):
+                raise ExtractionError("Node.validate_constraints: required and forbidden checks disagree on whether %s is set" % p)
+            if f_set == "raise":
+                seen.append(p)
+        finally:
+            _drop(t)
+    return seen, unprobed
+
+
+def validated_node_types():
+    """(node types `Topology.nodes` leaves out, node types `Topology.validate` never hands to validate_constraints) - observed
+    on an experiment and a substrate topology holding one node of every type."""
+    F = _fim()
+    NT = F["NodeType"]
+    hidden, skipped = set(), set()
+    for exp in (True, False):
+        t = F["ft"].ExperimentTopology() if exp else F["ft"].SubstrateTopology()
+        try:
+            for i, nt in enumerate(NT):
+                t.add_node(name="probe-%d" % i, site="PROBE", ntype=nt, node_id=None if exp else "probe-id-%d" % i)
+            shown = {n.type for n in t.nodes.values()}
+            reached = []
+            with _swap(F["un"].Node, "validate_constraints", lambda self: reached.append(self.type)):
+                try:
+                    t.validate()
+                except F["TopologyException"]:
+                    pass
+            hidden |= set(NT) - shown
+            skipped |= set(NT) - set(reached)
+        finally:
+            _drop(t)
+    return [x.name for x in NT if x in hidden], [x.name for x in NT if x in skipped]
+
+
+def guardrails():
+    """(pairs refused by __service_guardrails, constructor runs it, connect_interface runs it, topology classes whose services
+    get the interface-count check) - all observed."""
+    F = _fim()
+    NS, IT, ST = F["uns"].NetworkService, F["InterfaceType"], F["ServiceType"]
+    G = NS.__dict__.get("_NetworkService__service_guardrails")
+    if G is None:
+        raise ExtractionError("NetworkService.__service_guardrails not found")
+    fn = G.__func__ if isinstance(G, (staticmethod, classmethod)) else G
+    t = F["ft"].ExperimentTopology()
+    try:
+        n = t.add_node(name="probe-node", site="PROBE")
+        hs = n.add_network_service(name="probe-helper", nstype=ST.OVS)
+        ifaces = {}
+        for it in IT:
+            try:
+                if it == IT.SubInterface:
+                    par = hs.add_interface(name="probe-par", itype=IT.DedicatedPort, labels=F["Labels"](local_name="p0"))
+                    ifaces[it] = par.add_child_interface(name="probe-par.1", labels=F["Labels"](vlan="100"))
+                else:
+                    ifaces[it] = hs.add_interface(name="probe-%s" % it.name, itype=it)
+            except Exception:
+                ifaces[it] = types.SimpleNamespace(type=it, name="probe-%s" % it.name)
+        pairs = []
+        for st in ST:
+            sliver = F["NetworkServiceSliver"]()
+            sliver.set_name("probe-svc")
+            sliver.set_type(st)
+            for it in IT:
+                try:
+                    fn(sliver, ifaces[it])
+                except F["TopologyException"]:
+                    pairs.append((st.name, it.name))
+                except Exception as e:
+                    raise ExtractionError("__service_guardrails(%s, %s) fails with %s: %s" % (st.name, it.name, type(e).__name__, str(e)[:160]))
+        # who runs it
+        calls = []
+        spy = staticmethod(lambda sliver, interface: calls.append(1))
+        with _swap(NS, "_NetworkService__service_guardrails", spy):
+            t.add_network_service(name="probe-ctor", nstype=ST.L2Bridge, interfaces=[ifaces[IT.DedicatedPort]])
+            ctor = bool(calls)
+            del calls[:]
+            t.add_network_service(name="probe-conn", nstype=ST.L2Bridge).connect_interface(interface=ifaces[IT.TrunkPort])
+            conn = bool(calls)
+    finally:
+        _drop(t)
+    # interface-count limits: a PTP service (two interfaces, no more, no less) without any interface
+    classes = []
+    for cname in ("ExperimentTopology", "SubstrateTopology"):
+        t = getattr(F["ft"], cname)()
+        try:
+            kw = {} if cname == "ExperimentTopology" else {"node_id": "probe-id"}
+            s = t.add_network_service(name="probe-svc", nstype=ST.L2PTP, **kw)
+            rec = copy.copy(F["NetworkServiceSliver"].ServiceConstraints[ST.L2PTP])
+            rec.min_interfaces, rec.num_interfaces, rec.num_sites = 2, 2, F["NetworkServiceSliver"].NO_LIMIT
+            rec.required_properties, rec.forbidden_properties, rec.required_interface_types = [], [], []
+            with _swap(F["NetworkServiceSliver"].ServiceConstraints, ST.L2PTP, rec, item=True):
+                if _verdict(F, lambda: s.validate_constraints([])) == "raise":
+                    classes.append(cname)
+        finally:
+            _drop(t)
+    return pairs, ctor, conn, "+".join(classes)
 
 
 def value_classes(t):
     """For every property a row names: the class of the value the sliver holds once it is set through its setter, and
-    whether that class can be falsy (defines __len__ or __bool__)."""
-    import enum
-    import inspect
+    whether that class can be falsy (defines __len__ or __bool__). A property whose setter takes no value this translator can
+    make is listed with class 'unknown' and counted as possibly falsy (so that `gen_no_falsy_values` asks for a look)."""
     import fim.slivers.network_service as ns
     import fim.slivers.network_node as nn
     res = {}
@@ -240,35 +431,16 @@ def value_classes(t):
                     names.append(p)
         out = []
         for p in names:
-            setter = getattr(cls, "set_" + p, None)
-            if setter is None or not hasattr(cls, "get_" + p):
+            if getattr(cls, "set_" + p, None) is None or not hasattr(cls, "get_" + p):
                 out.append((p, "unreadable", False))
                 continue
-            params = list(inspect.signature(setter).parameters.values())[1:]
-            if len(params) != 1:
-                raise ExtractionError("setter of %s does not take one value" % p)
-            ann = params[0].annotation
-            samples = []
-            if ann is str or ann is inspect.Parameter.empty:
-                samples = ["x", "10.0.0.1"]
-            elif inspect.isclass(ann) and issubclass(ann, enum.Enum):
-                samples = [list(ann)[0]]
-            elif inspect.isclass(ann):
-                samples = [ann()]
-            else:
-                raise ExtractionError("setter annotation of %s not recognised: %r" % (p, ann))
-            val = None
-            for smp in samples:
-                inst = cls()
-                try:
-                    inst.set_property(p, smp)
-                    val = inst.get_property(p)
-                    break
-                except (ValueError, AssertionError):
-                    continue
-            if val is None:
-                raise ExtractionError("no sample value accepted by the setter of %s" % p)
-            vc = type(val)
+            smp = _sample_value(cls, p)
+            if smp is None:
+                out.append((p, "unknown", True))
+                continue
+            inst = cls()
+            inst.set_property(p, smp)
+            vc = type(inst.get_property(p))
             falsy = any("__len__" in k.__dict__ or "__bool__" in k.__dict__ for k in vc.__mro__)
             out.append((p, vc.__name__, bool(falsy)))
         res[key] = out
@@ -305,8 +477,21 @@ def generate():
     t = tables()
     ng, sg = getters()
     sh, h1 = shallow()
-    pairs, ctor_g, conn_g, exp_cls, h2 = guardrails()
-    excl, h3 = nodes_view_excludes()
+    pairs, ctor_g, conn_g, exp_cls = guardrails()
+    hidden, skipped = validated_node_types()
+    seen, unprobed = node_seen(t["node"])
+    # the node check reads a property either from the shallow sliver (getter + populated from the property dictionary) or in
+    # some other way (through the node handle); what is observed must be consistent with the first explanation where it applies
+    via_sliver = [p for p in seen if p in ng and p in sh["node"]]
+    via_handle = [p for p in seen if p not in via_sliver]
+    all_named = []
+    for _, r in t["node"]:
+        for p in r["required_properties"] + r["forbidden_properties"]:
+            if p not in all_named:
+                all_named.append(p)
+    lost = [p for p in all_named if p in ng and p in sh["node"] and p not in seen and p not in unprobed]
+    if lost:
+        raise ExtractionError("node properties with a getter that the shallow sliver carries are not seen by Node.validate_constraints: %s" % lost)
     sl = lambda xs: lean_list([lean_str(x) for x in xs])
     body = STRUCTS
     body += "def noLimit : Nat := 0\n\n"
@@ -327,16 +512,25 @@ def generate():
     body += "/-- properties the shallow sliver built from the graph node's property dict can carry -/\n"
     body += "def nodeShallow : List String := %s\n\n" % sl(sh["node"])
     body += "def svcShallow : List String := %s\n\n" % sl(sh["svc"])
-    body += "/-- `__service_guardrails`: (service type, interface type) pairs refused -/\n"
+    body += ("/-- properties named by the node rows that `Node.validate_constraints` sees although the shallow sliver cannot show them\n"
+             "(observed: it asks the node handle - components) -/\n")
+    body += "def nodeViaHandle : List String := %s\n\n" % sl(via_handle)
+    body += "/-- properties named by the node rows this translator could not set through the API (never seen by the check) -/\n"
+    body += "def nodeUnprobed : List String := %s\n\n" % sl(unprobed)
+    body += "/-- `__service_guardrails`: (service type, interface type) pairs refused (observed over all pairs) -/\n"
     body += "def guardPairs : List (String × String) := %s\n\n" % lean_list(["(%s, %s)" % (lean_str(a), lean_str(b)) for a, b in pairs])
     body += "def ctorRunsGuardrails : Bool := %s\n\n" % ("true" if ctor_g else "false")
     body += "def connectRunsGuardrails : Bool := %s\n\n" % ("true" if conn_g else "false")
-    body += "/-- node types `Topology.nodes` leaves out (so `validate` never looks at them) -/\n"
-    body += "def nodesViewExcludes : List String := %s\n\n" % sl(excl)
+    body += "/-- node types `Topology.nodes` leaves out -/\n"
+    body += "def nodesViewExcludes : List String := %s\n\n" % sl(hidden)
+    body += "/-- node types `Topology.validate` never hands to `validate_constraints` (observed) -/\n"
+    body += "def nodeTypesNotValidated : List String := %s\n\n" % sl(skipped)
+    body += "/-- topology classes whose services get the interface-count check (observed) -/\n"
     body += "def ifaceCountTopologyClass : String := %s\n\n" % lean_str(exp_cls)
     pt = presence_tests()
     vc = value_classes(t)
-    body += "/-- how `validate_constraints` decides that a property is set: `true` = by truthiness of the value, `false` = `is not None` -/\n"
+    body += ("/-- how `validate_constraints` decides that a property is set (observed): `true` = by truthiness of the value (an empty string\n"
+             "and a set-but-falsy object count as not set), `false` = `is not None` (both count as set) -/\n")
     for k, nm in (("svc_req", "svcReqTruthy"), ("svc_forb", "svcForbTruthy"), ("node_req", "nodeReqTruthy"), ("node_forb", "nodeForbTruthy")):
         body += "def %s : Bool := %s\n" % (nm, "true" if pt[k] == "truthy" else "false")
     for key, nm in (("svc", "svcValueClasses"), ("node", "nodeValueClasses")):
@@ -349,6 +543,6 @@ def generate():
     changed = emit("Constraints", body)
     return {"svc_rows": len(t["svc"]), "node_rows": len(t["node"]), "link_rows": len(t["link"]),
             "guard_pairs": pairs, "ctor_guardrails": ctor_g, "connect_guardrails": conn_g,
-            "nodes_view_excludes": excl, "node_getters_missing": sorted({p for _, r in t["node"] for p in
-                                                                         r["required_properties"] + r["forbidden_properties"]} - set(ng)),
-            "presence_tests": pt, "value_classes": vc, "changed": changed, "spans": {"abc_property_graph": h1, "guardrails": h2, "validate": h3}}
+            "nodes_view_excludes": hidden, "node_types_not_validated": skipped, "node_seen": seen, "node_via_handle": via_handle,
+            "node_unprobed": unprobed, "presence_tests": pt, "value_classes": vc, "changed": changed,
+            "spans": {"abc_property_graph": h1}}
